@@ -12,7 +12,31 @@ def do_call(exe, n, st):
     name = exe._callee_name(n)
     argn = n['inner'][1:]
     if name is None:
-        raise FrontEndError('indirect call in %s' % exe.fn_stack[-1])
+        # call through a function pointer stored in a struct member (plugin callbacks): only when the contract file
+        # declares the member as an effect-free callback; the result is an arbitrary value of the call's type
+        f = n['inner'][0]
+        while f['kind'] in ('ImplicitCastExpr', 'ParenExpr'):
+            f = f['inner'][0]
+        member = f.get('name') if f['kind'] == 'MemberExpr' else None
+        if member is None or member not in exe.contracts.get('__callbacks__', ()):
+            raise FrontEndError('indirect call in %s' % exe.fn_stack[-1])
+        p = exe._ev(f, st)
+        if isinstance(p, Ptr):
+            exe._check_deref(p, st, n)
+        for a in argn:
+            exe._ev(a, st)
+        exe.assumed.add('callback %s (function pointer) has no effect on verified state and returns an arbitrary value' % member)
+        rt = exe.ctype(n)
+        if isinstance(rt, TVoid):
+            return None
+        if not isinstance(rt, (TInt, TFloat)):
+            raise FrontEndError('callback %s returns %r' % (member, rt))
+        exe.nsym += 1
+        v = exe.sem.fresh('%s()#%d' % (member, exe.nsym), rt)
+        rf = exe.sem.range_fact(v, rt)
+        if rf is not None:
+            st.assume(rf)
+        return v
     if name == '__builtin_expect':
         return exe._ev(argn[0], st)
     if name in exe.hooks:
@@ -38,7 +62,12 @@ def do_call(exe, n, st):
             raise ErrorExit('mjERROR', n)
         return None
     if con is not None and con.get('inline') and name in exe.tu.functions:
-        return inline_call(exe, name, n, argn, st)
+        r = inline_call(exe, name, n, argn, st)
+        caller = exe.fn_stack[-1]
+        cut = exe.contracts.get(caller, {}).get('cut_after_call', {}).get(name)
+        if cut is not None:
+            sequence_cut(exe, st, caller, name, cut, n)
+        return r
     if con is not None and not con.get('inline'):
         return contract_call(exe, name, con, n, argn, st)
     if name in EFFECT_FREE or name in exe.contracts.get('__effect_free__', ()):
@@ -89,3 +118,31 @@ def contract_call(exe, name, con, n, argn, st):
     from .cexpr import eval_call_contract
     args = [exe._ev(a, st) for a in argn]
     return eval_call_contract(exe, name, con, n, args, st)
+
+
+def sequence_cut(exe, st, caller, callee, cut, node):
+    """cut point in straight-line code after the k-th inlined call to `callee` (the macro-expanded save / load / size
+    sequences): assert I(k); forget the listed locals; assume I(k).  The same soundness argument as a loop cut point:
+    what follows is verified for every state satisfying I(k), and the state reached here has been shown to satisfy it."""
+    from .cexpr import eval_clauses
+    from .state import Ptr
+    key = '$cut:%s:%s' % (caller, callee)
+    k = st.ghost.get(key, 0)
+    st.ghost[key] = k + 1
+    inv = cut['invariant_at'](k) if 'invariant_at' in cut else cut.get('invariant', {})
+    if inv is None:
+        return
+    for cname, term in eval_clauses(exe, inv, st, caller):
+        exe.emit('%s/cut(%s)#%d/%s' % (caller, callee, k, cname), term, st, kind='inv')
+    fn = exe.tu.functions[caller]
+    from .cast import walk, fn_body
+    for nm in cut.get('havoc', ()):
+        did = st.ghost.get('$decl:' + nm)
+        obj = exe.local_objs.get(did)
+        if obj is None:
+            raise FrontEndError('sequence cut in %s: no local %s in scope' % (caller, nm))
+        exe.flow._havoc_one(st, obj, (), 'cut_%s%d' % (callee, k))
+        if exe.flow.write_log is not None:
+            exe.flow.write_log.add((obj.id, ()))
+    for cname, term in eval_clauses(exe, inv, st, caller):
+        st.assume(term)
